@@ -25,7 +25,7 @@ import vlib
 
 QUICK_CFGS = ["Uniq_quick.cfg", "Uniq_quick2.cfg", "UniqW_quick.cfg", "UniqW_quick2.cfg", "UniqW_laws.cfg"]
 THOROUGH_CFGS = ["Uniq_thorough.cfg", "Uniq_thorough2.cfg", "Uniq_thorough4.cfg", "Uniq_laws.cfg",
-                 "UniqW_quick.cfg", "UniqW_quick2.cfg", "UniqW_thorough.cfg", "UniqW_laws.cfg"]
+                 "UniqW_quick2.cfg", "UniqW_thorough.cfg", "UniqW_thorough4.cfg", "UniqW_laws.cfg"]
 
 
 def weighted(case):
